@@ -101,7 +101,10 @@ CLAIMED = {
          "(b) make_pyvis_net is verified on all 66 paths (rvfunc / refunc / pyvis raising anywhere) against 'attribute sets and values unchanged, "
          "temporary index attribute removed'; (c) traversals, searches, basic_render and the PlantUML helpers pass a syntactic effect analysis: no "
          "attribute store/delete, in-place operations only on containers they allocate, every callee read-only by (a) or a user callback (A7). "
-         "nrpickler.dumps / pyvis internals: assumed not to write to edgegraph objects (A10)."),
+         "nrpickler.dumps / pyvis internals: assumed not to write to edgegraph objects (A10). What a callback raises is of an arbitrary class: the "
+         "executor lets every specific `except` clause take it or not (both continuations verified; in the tree: `except AssertionError` around "
+         "refunc in make_pyvis_net), and the explorer injects faults of six classes (plain, StopIteration, AttributeError, AssertionError, "
+         "KeyError, IndexError) into queries and renderers when it stands in for a function outside the subset (DESIGN 12.14)."),
  "C14": ("proof", "12.11/C14", "All six functions of the PlantUML source renderer are verified on every path against contracts taken from the statement, "
          "over option tables and graphs that are symbolic: _resolve_options returns the entry of the FIRST class of clas.__mro__ that is a key of the "
          "table (loop invariant over the recursively defined least index; ValueError exactly when no class of the MRO is configured) and changes "
